@@ -56,7 +56,8 @@ REQUIRED_PROBES = ["file_crosses_directory_boundary", "query_end_on_file_start",
                    "query_start_on_file_end", "open_ended_query", "exclude_period",
                    "exclude_name", "filter_white", "filter_black", "bundle_int",
                    "bundle_freq", "listing_permuted", "backend_zip", "backend_local",
-                   "created_after_first_query", "duplicate_start_times"]
+                   "created_after_first_query", "duplicate_start_times",
+                   "excludes_cleared", "filter_two_placeholders"]
 
 
 def setup():
@@ -77,7 +78,7 @@ def gen_workload(tape):
     nops = tape.count(4, 10, "nops", (4, 5))
     for _ in range(nops):
         kinds = ["find", "find", "find", "contains", "len", "create", "delete",
-                 "find", "reset_cache", "set_coverage", "dataframe"]
+                 "find", "reset_cache", "set_coverage", "dataframe", "set_excludes"]
         if w["backend"] == "zip":
             kinds = ["find", "find", "contains", "len", "find", "dataframe"]
         o = {"op": tape.pick(kinds, "op")}
@@ -101,6 +102,17 @@ def gen_workload(tape):
             o["idx"] = tape.choice(20, "didx")
         elif o["op"] == "set_coverage":
             o["tcov"] = tape.pick([None, 60, 3600, 600], "ntcov")
+        elif o["op"] == "set_excludes":
+            # change the exclusions on the live object: clear them (empty list
+            # or None) or set new ones
+            o["what"] = tape.pick(["times", "files", "both"], "exwhat")
+            o["how"] = tape.pick(["empty", "none", "new"], "exhow")
+            o["names"] = [tape.choice(20, "exn2") for _ in range(tape.count(0, 2, "nexn2", (1, 2)))]
+            o["periods"] = []
+            for _ in range(tape.count(0, 2, "nexp2", (1, 2))):
+                a, b = gen_point(tape, "exa2"), gen_point(tape, "exb2")
+                if a is not None and b is not None:
+                    o["periods"].append(sorted([a, b]))
         ops.append(o)
     w["ops"] = ops
     # exclusions
@@ -350,6 +362,33 @@ class Run:
             return
         if kind == "reset_cache":
             self.fs.reset_cache()
+            return
+        if kind == "set_excludes":
+            if w["single"]:
+                return
+            covs_now = [self.cov(f) for f in self.files]
+            if o["what"] in ("times", "both"):
+                if o["how"] == "new":
+                    per = []
+                    for a, b in o["periods"]:
+                        x = resolve(a, covs_now, F.BASE)
+                        y = resolve(b, covs_now, F.BASE + timedelta(days=80))
+                        per.append([min(x, y), max(x, y)])
+                    self.fs.exclude_times([tuple(p) for p in per])
+                    self.ex_periods_now = per
+                else:
+                    self.fs.exclude_times([] if o["how"] == "empty" else None)
+                    self.ex_periods_now = []
+                    self.probe("excludes_cleared")
+            if o["what"] in ("files", "both"):
+                if o["how"] == "new" and self.files:
+                    names = sorted({self.files[i % len(self.files)]["path"]
+                                    for i in o["names"]})
+                else:
+                    names = []
+                self.fs.exclude_files(names)
+                self.ex_names_now = set(names)
+            self.changes += 1
             return
         if kind == "set_coverage":
             if not w["single"] and self.t["end"] == "none":
